@@ -12,7 +12,7 @@ func init() {
 	register(&Property{
 		ID:        "C19",
 		Technique: "static analysis: who-may-write enumeration of the synced-position map, ORDER rules on the apply loop (duplicate filter before the state machine, position update after it), guard implication by truth table (the duplicate test), agreement between what the snapshot saves and restores",
-		Explanation: "Decides: (Y1) the synced position per source cluster is written only by UpdateState/RestoreStates under the manager's lock, UpdateState is called only from postprocessRemoteApply and the operator API, RestoreStates only from RestoreFromSnapshot; (Y2) in applyEntry an entry from the cluster syncer reaches the state machine only after isAlreadyApplied answered false, the early return for an already-applied entry does not reach ApplyRaftRequest, and the position is advanced only after the state machine ran, not for snapshot-transfer steps or ignored applies; (Y3) isAlreadyApplied is true iff OrigTerm < SyncedTerm or OrigIndex <= SyncedIndex for the state of the entry's own source cluster, the receive-time filter in ApplyRaftReqs skips on the same test against GetRemoteClusterSyncedRaft(r.ClusterName), and the proposer stamps OrigTerm/OrigIndex from the source entry; (Y4) the position map is part of the snapshot: saved as a clone, restored after the data was restored.",
+		Explanation: "Decides: (Y1) the synced position per source cluster is written only by UpdateState/RestoreStates under the manager's lock, UpdateState is called only from postprocessRemoteApply and the operator API, RestoreStates only from RestoreFromSnapshot; (Y2) in applyEntry an entry from the cluster syncer reaches the state machine only after isAlreadyApplied answered false, the early return for an already-applied entry does not reach ApplyRaftRequest, and the position is advanced only after the state machine ran, not for snapshot-transfer steps or ignored applies; (Y3) isAlreadyApplied is true iff OrigTerm < SyncedTerm or OrigIndex <= SyncedIndex for the state of the entry's own source cluster, the receive-time filter in ApplyRaftReqs skips on the same test against GetRemoteClusterSyncedRaft(r.ClusterName), and the proposer stamps OrigTerm/OrigIndex from the source entry; (Y4) the position map is part of the snapshot: saved as a clone, restored after the data was restored. (Y8) in applyEntry, assuming the entry is from the syncer, postprocessRemoteApply follows ApplyRaftRequest on every path (replayed or live), and the remote-snapshot classification is made under no stronger condition than: has data, from the syncer, not already applied.",
 		NotDecided: "exactly-once over all delivery histories (needs the histories), conflict handling (preCheckConflict), the learner/log-sender side, that UpdateState is monotone by itself (it overwrites; monotonicity rests on Y2's filter).",
 		Assumptions: []string{"path conditions as in C01"},
 		Run: runC19,
@@ -232,4 +232,32 @@ func c19Y7(c *Ctx) {
 func init() {
 	old := registry["C19"].Run
 	registry["C19"].Run = func(c *Ctx) { old(c); c19Y7(c) }
+}
+
+// Y8: the synced position follows every entry of the syncer that reaches the state machine — also the entries applied
+// while the local WAL is replayed after a restart. If replayed entries did not advance it, the position would fall back
+// behind the data after a restart, the source would send those entries again and they would be applied a second time.
+func c19Y8(c *Ctx) {
+	r := c.R
+	r.Clause("C19-Y8", "every syncer entry the state machine applied advances the position, replayed or live")
+	u := c.unit("C19-Y8", "node.(*KVNode).applyEntry")
+	if u == nil {
+		return
+	}
+	sm := an.Call("node.StateMachine.ApplyRaftRequest")
+	post := an.Call("node.(*KVNode).postprocessRemoteApply")
+	r.Follow("C19-Y8", u, sm, []an.M{post}, an.FollowOpts{Assume: "reqList.Type == node.FromClusterSyncer", Min: 1})
+	// and the snapshot-transfer classification that postprocessRemoteApply depends on is made for every syncer entry too
+	pre := u.Match(an.Call("node.(*KVNode).preprocessRemoteSnapApply"))
+	for _, s := range pre {
+		res := flow.Implies(c.W.Parse("p0.Data != nil && reqList.Type == node.FromClusterSyncer && !isApplied"), u.SitePC(s))
+		r.Check("C19-Y8", u.Name+": the remote-snapshot classification is made for every syncer entry that is not filtered", u.Pos(s.Pos), res.Holds,
+			"path condition "+u.SitePC(s).String()+" is stronger than (entry has data, from the syncer, not already applied)")
+	}
+	r.Min("C19-Y8", len(pre), 1, "preprocessRemoteSnapApply calls in applyEntry")
+}
+
+func init() {
+	old := registry["C19"].Run
+	registry["C19"].Run = func(c *Ctx) { old(c); c19Y8(c) }
 }
